@@ -14,10 +14,13 @@ def run(ctx):
         ctx.replay("lexer-%s-parse" % name, "lexparse", r["dump"], min_cases=mn)
     r = ctx.tlc("chars", "mc/MC_Chars.tla", "mc/MC_Chars.cfg", min_states=1000, workers=4)
     ctx.replay("chars-all-codepoints", "chars", r["dump"], min_cases=1000)
+    tr = ctx.record("scan-random", "parse", ["-n", 40000 if th else 3000, "-maxlen", 120 if th else 60], env_extra=None)
+    ctx.validate("scan-random-validate", "trace/Trace_Parse.tla", "trace/Trace_Parse.cfg", tr, "parse", shards=14 if th else 3)
     return ctx.finish(
         rule="every concatenation of <= k units over three unit alphabets (operator characters k<=%d, scanner alphabet "
              "incl. multi-byte / U+2028 / invalid byte k<=%d, keyword letters k<=%d) scanned token by token and parsed; "
-             "all 1,114,112 code points classified against the class intervals computed by TLC; non-trivial = texts with "
+             "all 1,114,112 code points classified against the class intervals computed by TLC; seeded random texts whose real token "
+             "lists are validated by Trace_Parse (tiling, tokens = NextToken); non-trivial = texts with "
              "at least one token before EOF" % ((6, 5, 6) if th else (4, 4, 5)),
         assumptions=["ES5Tables.tla is a frozen transcription of the ES5 identifier tables",
                      "the text of a number token's value is not compared at scanner level (its number is compared through the parser)",
